@@ -98,6 +98,15 @@ def inputs():
     add("interim-cl0", resp(status=b"HTTP/1.1 100 Continue", headers=(), framing=(b"Content-Length: 0",)) + final, "either")
     add("interim-cl", resp(status=b"HTTP/1.1 100 Continue", headers=(), framing=(b"Content-Length: 3",), body=b"abc") + final)
     add("interim-te", resp(status=b"HTTP/1.1 100 Continue", headers=(), framing=TE, body=chunked([b"a"])) + final)
+    for code in (b"103 Early Hints", b"104 Upload Resumption Supported", b"199 Whatever", b"110 X"):
+        add("interim:%s" % code[:3].decode(), resp(status=b"HTTP/1.1 " + code, headers=(b"X-I: 0",)) + final)
+    add("interim:100+104", resp(status=b"HTTP/1.1 100 Continue", headers=())
+        + resp(status=b"HTTP/1.1 104 Upload Resumption Supported", headers=()) + final)
+    # a redirect that is not followed (budget used up) is an ordinary response: its body belongs to the caller
+    LOC = (b"Location: http://srv.example/next",)
+    add("3xx:302-cl", resp(status=b"HTTP/1.1 302 Found", headers=LOC, framing=(b"Content-Length: 5",), body=b"moved"))
+    add("3xx:301-chunked", resp(status=b"HTTP/1.1 301 Moved", headers=LOC, framing=TE, body=chunked([b"mo", b"ved"])))
+    add("3xx:307-close", resp(status=b"HTTP/1.1 307 Temporary Redirect", headers=LOC, body=b"moved"))
     add("interim-only", resp(status=b"HTTP/1.1 100 Continue", headers=()))
     for sl in (b"HTTP/1.1 200 ", b"HTTP/1.1 200", b"HTTP/1.1 20 OK", b"HTTP/1.1 2000 OK", b"HTTP/2.0 200 OK",
                b"HTTP/1.1  200 OK", b"http/1.1 200 OK", b"HTTP/1.1 200 OK\x00", b"ICY 200 OK", b"", b"HTTP/1.1 2x0 OK",
@@ -194,7 +203,7 @@ def execute(data, segs, method, decompress, streaming, timeouts, maxbody=None):
     chunks = []
     with World() as w:
         client = make_client(w, max_body_size=MAXBODY if maxbody is None else maxbody)
-        kw = dict(method=method, decompress_response=decompress)
+        kw = dict(method=method, decompress_response=decompress, max_redirects=0)
         if streaming:
             kw["streaming_callback"] = chunks.append
         if not timeouts:
